@@ -7,9 +7,9 @@ package transport
 // start states.
 
 import (
-	"os"
 	"bytes"
 	"fmt"
+	"os"
 	"strings"
 	"testing"
 	"time"
@@ -249,7 +249,9 @@ func c05Scenario(c *choice.Ctx, rep *report.R, tcp bool, startQid int, nCalls, d
 					menu = append(menu, event{name: fmt.Sprintf("commit(c%d)", ci), do: func() { impl.Commit() }})
 				}
 				// exactly one exchange is blocked in its write: the server answers the id it is about to use, then hangs up
-				if impl.StalledWrites() == 1 && len(qs) > 0 && !early[ci] {
+				// (not in pause mode: with a goroutine that stood still between being given its wire id and writing its frame, "the id the
+				// stalled writer is about to use" cannot be inferred from the frames seen)
+				if impl.StalledWrites() == 1 && len(qs) > 0 && !early[ci] && !pauseMode {
 					var owner *call
 					for _, cl := range calls {
 						if cl.inflight() {
